@@ -570,6 +570,16 @@ def _replicas_B(job):
                 for p in getattr(ch, "params", []):
                     build._set(p, "chk_int", 10 ** 9)
                     build._set(p, "max_tries", 10 ** 9)
+                if cfg.get("limits") == "bounds":
+                    for i in range(d):
+                        ch.set_boundaries(i, (float(spec["lo"][i]), float(spec["hi"][i])))
+                elif cfg.get("limits") == "nonneg":
+                    for i in range(d):
+                        ch.set_non_negative(i, True)
+                elif cfg.get("limits") == "both":
+                    for i in range(d):
+                        ch.set_boundaries(i, (-1.0, float(spec["hi"][i])))
+                        ch.set_non_negative(i, True)
             del log[:]
             posts = []
             step = 0
@@ -699,6 +709,14 @@ def stat_jobs(tier, seed):
               dict(kind=kind, target=g2, T=4.0, k_att=1 if kind != "metropolis" else 3, cfg=dict(width=2.5)),
               dict(kind=kind, target=lap, T=2.0, k_att=1 if kind != "metropolis" else 2, cfg=dict(width=1.5)),
               dict(kind=kind, target=moat, T=1.0, k_att=3, cfg=dict(width=1.0))]
+    gam1 = dict(kind="gamma", d=1, k=2.0)
+    gam2 = dict(kind="gamma", d=2, k=3.0)
+    pos = dict(kind="truncgauss", d=1, lo=[0.0], hi=[2.0], mu=[0.5], s=[1.0], strict=True)
+    for kind in ("gibbs", "metropolis"):
+        B += [dict(kind=kind, target=box, T=1.0, k_att=1 if kind == "gibbs" else 2, cfg=dict(width=2.0, limits="bounds"), tag=kind + "-boundaries"),
+              dict(kind=kind, target=gam1, T=1.0, k_att=3, cfg=dict(width=2.0, limits="nonneg"), tag=kind + "-nonneg"),
+              dict(kind=kind, target=gam2, T=2.0, k_att=1 if kind == "gibbs" else 2, cfg=dict(width=3.0, limits="nonneg"), tag=kind + "-nonneg"),
+              dict(kind=kind, target=pos, T=1.0, k_att=3, cfg=dict(width=1.5, limits="both"), tag=kind + "-boundaries-nonneg")]
     B += [dict(kind="pca", target=box, T=1.0, k_att=1, cfg=dict(width=1.5), bounds=[box["lo"], box["hi"]]),
           dict(kind="pca", target=lin, T=2.0, k_att=3, cfg=dict(width=0.7), bounds=[[0.0], [1.0]])]
     Nh = N // 5
